@@ -452,6 +452,66 @@ def c03(ctx):
     ctx.exhaustive = True
 
 
+# ---------------------------------------------------------------------------------------------
+# Hash family: C06 (HashCases), C04 (Chain)
+
+def c06(ctx):
+    ctx.rule = ("HashCases.tla over Hash.tla (ideal hash, JCS forgets the spelling): (calc) 12 concrete JSON values x 6 "
+                "multihash codes (SHA-256, SHA-512, SHA3-256, SHA-1, identity, an unregistered code), each value "
+                "handed over decoded, as bytes and in another spelling, the result compared with "
+                "B64(MH(code, H(JCS(value)))) from reference SHA-2 / framing / JCS; (valid) value x {same, "
+                "re-serialized, single-point modified} x both algorithms, and value x 11 malformed / unsupported "
+                "encodings (bad base64url character, padding, empty, not a multihash, wrong length field, truncated "
+                "digest, trailing bytes, SHA3 / SHA-1 / unknown code, short digest); (code) reported code and the "
+                "'computed with one of' test for every class x 4 code lists. TLC checks ContentAddress and "
+                "AlgorithmInPrefix on the model and prints the expected verdicts.")
+    ctx.assumptions = APPLIER_ASSUME[:1] + ["values are objects / arrays (the canonicalizer's domain); numbers, escapes, "
+                                            "UTF-16 member order are exercised through the 12 table values, the "
+                                            "full JCS space is C05's"]
+    _, summ = ctx.tlc_pipe("MC_HashCases.tla", "MC_HashCases.cfg", ["hash-replay"], workers=4,
+                           label="calc / valid / code cases")
+
+    def wrong(rec):
+        rec["expected"]["ok"] = not rec["expected"]["ok"]
+        rec["expected"]["reportsCode"] = not rec["expected"]["reportsCode"]
+
+    ctx.negctl_replay(["hash-replay"], summ["_first_edge"], wrong)
+    ctx.exhaustive = True
+
+
+def c04(ctx):
+    ctx.rule = ("Chain.tla over Hash.tla: TLC enumerates every well-formed chain create -> (update | recover)* -> "
+                "deactivate up to MaxLen operations, checks Algebra (CommitFromReveal(Reveal(k)) = Commit(k), "
+                "Commit # Reveal, distinct keys have distinct commitments), Linked and DeactivateEnds, and prints each "
+                "complete chain with, per operation, its predecessor on the same chain and where that predecessor "
+                "carries the commitment. The harness builds each chain as real signed requests for every key type x "
+                "{SHA-256, SHA-512} x {no nonce, 16-byte nonce}: reveal value and commitment of every key against the "
+                "reference terms, nonce-only difference, Parser.GetRevealValue / GetCommitment of every operation, "
+                "and GetCommitmentFromRevealValue(reveal(op)) = the commitment reported for the predecessor.")
+    ctx.assumptions = APPLIER_ASSUME[:1] + [
+        "Parser.GetCommitment reports nothing for create and the recovery commitment for recover; the links "
+        "create->update, create->recover and recover->update take the predecessor's commitment from its parsed model"]
+    kts = ",".join(kts_for(ctx, 2) if ctx.tier == "quick" else KTS)
+    ml = 6 if ctx.tier == "quick" else 8
+    for alg in (256, 512):
+        _, summ = ctx.tlc_pipe("MC_Chain.tla", "MC_Chain.cfg", ["chain-replay", "-kts", kts],
+                               overrides={"MaxLen": ml, "Alg": alg}, workers=4,
+                               label="chains <= %d operations (model algorithm %d), key types %s" % (ml, alg, kts))
+        if summ["extra"]["links_checked"] == 0:
+            raise Infra("no link checked")
+        if alg == 256 and ctx.tier == "quick":
+            break
+
+    def wrong(rec):
+        # claim that the last operation links to the create's update commitment
+        rec["ops"][-1]["from"] = 1
+        rec["ops"][-1]["where"] = "delta.updateCommitment"
+        rec["ops"][-1]["type"] = "deactivate"
+
+    ctx.negctl_replay(["chain-replay", "-kts", "p256"], summ["_first_edge"], wrong)
+    ctx.exhaustive = True
+
+
 def replay(path):
     """re-execute exactly the case of a replay file against the current tree"""
     m = json.load(open(path))
@@ -515,6 +575,8 @@ CHECKS = {
     "C01": c01,
     "C02": c02,
     "C03": c03,
+    "C04": c04,
+    "C06": c06,
     "C07": c07,
     "C09": c09,
     "C10": c10,
